@@ -101,7 +101,7 @@ func ruleD2(c *Ctx) {
 				o, f := ownerField(fa)
 				if htTypes[o] {
 					short := o[strings.LastIndex(o, ".")+1:] + "." + f
-					if bucketLevel[short] {
+					if bucketLevel[short] && !onlyNilOrLen(fa) {
 						uses[short] = true
 					}
 				}
@@ -135,6 +135,43 @@ func ruleD2(c *Ctx) {
 	if n < 10 {
 		c.anchorFail("only %d hashtable methods examined", n)
 	}
+}
+
+// onlyNilOrLen: the field address is only loaded, and the loaded value is only
+// compared with nil or measured with len/cap - uses that reveal whether the
+// table exists and how big it is, never where a key hashed to.
+func onlyNilOrLen(fa *ssa.FieldAddr) bool {
+	refs := fa.Referrers()
+	if refs == nil || len(*refs) == 0 {
+		return false
+	}
+	for _, r := range *refs {
+		ld, ok := r.(*ssa.UnOp)
+		if !ok || ld.Op != token.MUL {
+			return false
+		}
+		lr := ld.Referrers()
+		if lr == nil {
+			return false
+		}
+		for _, u := range *lr {
+			switch x := u.(type) {
+			case *ssa.BinOp:
+				if _, _, ok := nilTest(x); !ok {
+					return false
+				}
+			case *ssa.Call:
+				b, ok := x.Call.Value.(*ssa.Builtin)
+				if !ok || (b.Name() != "len" && b.Name() != "cap") {
+					return false
+				}
+			case *ssa.DebugRef:
+			default:
+				return false
+			}
+		}
+	}
+	return true
 }
 
 // ---------- H2 ----------
